@@ -348,9 +348,19 @@ def completeCall (v : Variant) (c : Call) (ok : Bool) (s : St) : St :=
   | _, true => s.emit (.callOk c.serial)
   | _, false => s.emit (.callErr c.serial .remote)
 
+/-- How a connection attempt on one address failed.  `try_next_ep` is the errback of the endpoint's
+Deferred for EVERY failure: none of these kinds is looked at, each one moves the walk on. -/
+inductive FailKind
+  | refused        -- ConnectionRefusedError
+  | connectError   -- another ConnectError subclass (NoRouteError, ConnectBindError, ...)
+  | dnsLookup      -- DNSLookupError (not a ConnectError)
+  | timeout        -- TimeoutError / TCPTimedOutError
+  | other          -- anything else the endpoint's Deferred fails with (OSError, Exception, CancelledError)
+deriving DecidableEq, Repr
+
 inductive Ev
   -- environment: the reactor and the peer
-  | attemptFails | attemptConnects
+  | attemptFails (why : FailKind) | attemptConnects
   | authProgress | authOk | authFailed
   | helloReply | helloError
   | close
@@ -368,13 +378,14 @@ inductive Ev
 deriving DecidableEq, Repr
 
 def Ev.isEnv : Ev → Bool
-  | .attemptFails | .attemptConnects | .authProgress | .authOk | .authFailed
+  | .attemptFails _ | .attemptConnects | .authProgress | .authOk | .authFailed
   | .helloReply | .helloError | .close | .reply _ _ | .expire _ => true
   | _ => false
 
 /-- One event.  An event that cannot happen in the current state (see the header) changes nothing. -/
 def step (v : Variant) (s : St) : Ev → St
-  | .attemptFails =>
+  | .attemptFails _ =>
+    -- try_next_ep(err): whatever the failure is
     if s.phase = .connecting then tryNext s else s
   | .attemptConnects =>
     -- buildProtocol, makeConnection, connectionMade: the handshake starts
@@ -466,7 +477,7 @@ def concludes (s : St) : Ev → Bool
   | .helloReply | .helloError => s.phase = .helloSent
   | .close => s.transportOpen
   | .authFailed => s.phase = .authenticating
-  | .attemptFails => s.phase = .connecting && s.remaining.isEmpty
+  | .attemptFails _ => s.phase = .connecting && s.remaining.isEmpty
   | _ => false
 
 /-- The connection attempts made so far, in order. -/
